@@ -1,11 +1,11 @@
-\* code before the repair: in-place compile; NoPartialLoad must FAIL (vacuity control)
+\* current tree: compile to a private file, os.replace onto the final name
 SPECIFICATION Spec
 CONSTANTS
   Procs = {p1, p2, p3}
   MaxCrashes = 2
-  Protocol = "inplace"
+  Protocol = "atomic"
   SignalDeath = "failure"
-  MkdirMode = "idempotent"
+  MkdirMode = "exclusive"
 INVARIANT TypeOK
 INVARIANT NoPartialLoad
 INVARIANT EveryoneGetsAKernel
